@@ -76,11 +76,13 @@ def make_obj(o):
     for c in o.get("consts", []):
         # [name, value text] or [name, value text, "float"]: the value handed to the API as a Python float
         spec.declare_const(c[0], "float", float(c[1]) if len(c) > 2 and c[2] == "float" else c[1])
-    if o.get("unit"):
+    if o.get("unit") and not o.get("period_first"):
         spec.unit = o["unit"]
     if o.get("set_period"):
         sp = o["set_period"]
         spec.set_sampling_period(float(sp[0]) if o.get("period_as_float") else sp[0], sp[1], sp[2])
+    if o.get("unit") and o.get("period_first"):
+        spec.unit = o["unit"]       # the configuration calls in the other order: the sampling period first, then the default unit
     for s in o.get("subs", []):
         spec.add_sub_spec(s)
     spec.spec = o["text"]
